@@ -41,7 +41,7 @@ const id = "C13"
 
 // Rep is one peer's reply to a block request.
 type Rep struct {
-	K int // 0 no reply, 1 the requested block, 2 another block of the forest (X), 3 the requested block with one field changed (X)
+	K int // 0 no reply, 1 the requested block, 2 another block of the forest (X), 3 the requested block with one field changed (X), 4 no reply, but the block arrives by another path (a proposal) while the request is in flight: the store gets it, which cancels the request
 	X int
 }
 
@@ -201,7 +201,7 @@ func (f *forest) isAncestorOrSelf(b, a int) bool {
 
 func hasHonest(rs []Rep) bool {
 	for _, r := range rs {
-		if r.K == 1 {
+		if r.K == 1 || r.K == 4 {
 			return true
 		}
 	}
@@ -212,14 +212,16 @@ func hasHonest(rs []Rep) bool {
 // sender stub: the peers and the network layer
 
 type delivery struct {
-	hash hotstuff.Hash
-	ok   bool
-	lied bool // at least one reply carried a block with another hash
+	hash    hotstuff.Hash
+	ok      bool
+	lied    bool // at least one reply carried a block with another hash
+	arrived bool // the block was stored by another path while the request was in flight (the request itself failed)
 }
 
 type stubSender struct {
 	f   *forest
 	log []delivery
+	bc  *blockchain.Blockchain
 }
 
 func tamper(pb *hotstuffpb.Block, x int) {
@@ -280,6 +282,15 @@ func (s *stubSender) replies(hash hotstuff.Hash) []*hotstuffpb.Block {
 // to the quorum function, which accepts the first reply that decodes to a block with the requested hash; the accepted
 // message is decoded with BlockFromProto; no acceptable reply = failure.
 func (s *stubSender) RequestBlock(_ context.Context, hash hotstuff.Hash) (*hotstuff.Block, bool) {
+	if want, known := s.f.byHash[hash]; known && s.bc != nil {
+		for _, r := range s.f.remote[want] {
+			if r.K == 4 {
+				s.bc.Store(s.f.blocks[want]) // cancels the pending request, as the real store does
+				s.log = append(s.log, delivery{hash: hash, arrived: true})
+				return nil, false
+			}
+		}
+	}
 	d := delivery{hash: hash}
 	var got *hotstuff.Block
 	for _, pb := range s.replies(hash) {
@@ -352,6 +363,7 @@ func newRun(c History) (*run, error) {
 	r.el = eventloop.New(log, 1<<12)
 	r.snd = &stubSender{f: r.f}
 	r.bc = blockchain.New(r.el, log, r.snd)
+	r.snd.bc = r.bc
 	base, err := crypto.New(cfg, crypto.NameECDSA)
 	if err != nil {
 		return nil, err
@@ -396,6 +408,11 @@ func (r *run) learn() {
 	for ; r.seen < len(r.snd.log); r.seen++ {
 		d := r.snd.log[r.seen]
 		switch {
+		case d.arrived:
+			r.classes["fetch-cancelled-by-arrival"] = true
+			if i, ok := r.f.byHash[d.hash]; ok {
+				r.local[i] = true
+			}
 		case d.ok && d.lied:
 			r.classes["fetch-honest-among-liars"] = true
 		case d.ok:
@@ -793,7 +810,7 @@ func (r *run) localNames() string {
 // generators
 
 var genRep = rapid.Custom(func(rt *rapid.T) Rep {
-	return Rep{K: rapid.SampledFrom([]int{1, 1, 1, 0, 2, 2, 3}).Draw(rt, "kind"), X: rapid.IntRange(0, 7).Draw(rt, "x")}
+	return Rep{K: rapid.SampledFrom([]int{1, 1, 1, 0, 2, 2, 3, 4}).Draw(rt, "kind"), X: rapid.IntRange(0, 7).Draw(rt, "x")}
 })
 
 var genReps = rapid.SliceOfN(genRep, 0, 3)
